@@ -22,7 +22,7 @@ import vlib
 KNOWN = {
     "C03-empty-name": "an empty link name (CreateGroup(\"//\"), CreateDataset(\"/\")) is accepted; after the next insertion it reads back as that next name",
     "C03-nul-name": "a link name containing a NUL byte is accepted and reads back truncated at the NUL (can duplicate an existing name)",
-    "C03-hardlink-to-group": "a group reachable through two paths is listed with its children only under the first path visited; a hard link to an enclosing group makes the file unopenable (own-ancestor check)",
+    "C03-hardlink-to-group": "a group reachable through two paths (hard link whose target is a group) is listed with its children only under the first path visited; nothing can be created through the second path (fw.groups does not know it)",
     "C03-hardlink-to-link-object": "a hard link whose target is a soft/external link object grows that object's header (RefCount message) beyond its exact-size allocation and overwrites the next structure",
     "C03-refcount-after-failed-hardlink": "a CreateHardLink that fails in linkToParent (duplicate name / full group) leaves the target's stored reference count one too high when it was 1 before",
 }
@@ -473,21 +473,25 @@ def source_cfg():
     cg = cg[:cg.index("\n}\n")]
     wr = lw[lw.index("func writeV2RefCount("):]
     wr = wr[:wr.index("\n}\n")]
+    if "fw.prepareLink(" in link_body:          # e5d916a: the checks live in prepareLink, shared with checkLinkable
+        pl = gw[gw.index("func (fw *FileWriter) prepareLink("):]
+        link_body = pl[:pl.index("\n}\n")]
     strict = ('childName == ""' in link_body) and ("IndexByte(childName, 0)" in link_body)
+    check_first = all("fw.checkLinkable(" in body for body in (cg, src("dataset_write.go"), lw))
     canon = 'path = strings.TrimSuffix(path, "/")' in cg
     rcfix = "hasRefCountMessage(oh)" in wr
     m3 = re.search(r"maxGroupDepth\s*=\s*(\d+)", src("file.go"))
     gr = src("group.go")
     lo = gr[gr.index("func loadObject("):]
     lo = lo[:lo.index("\n}\n")]
-    cyc_err = "file.loading[address]" not in lo       # loadObject handles the enclosing-group case itself
+    cyc_err = ("file.loading[address]" not in lo) and ("errLinkCycle" not in lo)   # loadObject lists the enclosing group itself
     return dict(heap_cap=int(m1.group(1)), snod_cap=int(m1.group(2)), soft_max=244, max_depth=int(m3.group(1)) if m3 else 0,
-                strict_names=strict, canon_group_key=canon, rc_rollback_fix=rcfix, cycle_is_error=cyc_err)
+                strict_names=strict, canon_group_key=canon, rc_rollback_fix=rcfix, cycle_is_error=cyc_err, check_first=check_first)
 
 
 def c_cfg(cfg):
-    return "{| heap_cap := %d; snod_cap := %d; soft_max := %d; max_depth := %d; strict_names := %s; canon_group_key := %s; rc_rollback_fix := %s; cycle_is_error := %s |}" % (
-        cfg["heap_cap"], cfg["snod_cap"], cfg["soft_max"], cfg["max_depth"], vlib.cbool(cfg["strict_names"]), vlib.cbool(cfg["canon_group_key"]), vlib.cbool(cfg["rc_rollback_fix"]), vlib.cbool(cfg["cycle_is_error"]))
+    return "{| heap_cap := %d; snod_cap := %d; soft_max := %d; max_depth := %d; strict_names := %s; canon_group_key := %s; rc_rollback_fix := %s; cycle_is_error := %s; check_first := %s |}" % (
+        cfg["heap_cap"], cfg["snod_cap"], cfg["soft_max"], cfg["max_depth"], vlib.cbool(cfg["strict_names"]), vlib.cbool(cfg["canon_group_key"]), vlib.cbool(cfg["rc_rollback_fix"]), vlib.cbool(cfg["cycle_is_error"]), vlib.cbool(cfg["check_first"]))
 
 
 def c_link(case, res, groups, rcs, cfg):
